@@ -5,19 +5,29 @@
 (***************************************************************************)
 EXTENDS MidiBase
 
+\* @typeAlias: pnSt = { nm: Int, nl: Int, reg: Bool, vl: Int };
+\* @typeAlias: pnRes = { st: $pnSt, out: Seq(Seq(Int)) };
+\* @typeAlias: pnGhost = { nm: Int, nl: Int, kind: Bool, v38: Int };
+PnAliases == TRUE
+
 (*************************** the (N)RPN message ****************************)
 (* msg = <<ch, num, val, reg, is14, dt>>                                   *)
+\* @type: (Seq(Int)) => Bool;
 PnValid(msg) ==
     /\ msg[1] \in 0..15 /\ msg[2] \in 0..16383 /\ msg[4] \in {0,1} /\ msg[5] \in {0,1}
     /\ msg[6] \in {0,1,2}
     /\ (msg[5] = 0 => msg[3] \in 0..127)
     /\ (msg[5] = 1 => msg[3] \in 0..16383 /\ msg[6] = DtEntry)
 
+\* @type: (Int) => Int;
 PnNumMsbCn(reg) == IF reg = 1 THEN 101 ELSE 99
+\* @type: (Int) => Int;
 PnNumLsbCn(reg) == IF reg = 1 THEN 100 ELSE 98
 
 \* the four slots; NoMsg (the empty tuple) for an empty slot; order \in {"msb","lsb"}
+\* @type: Seq(Int);
 NoMsg == <<>>
+\* @type: (Seq(Int), Str) => Seq(Seq(Int));
 PnEncode(msg, order) ==
     LET c == msg[1]
         x == CC(c, PnNumMsbCn(msg[4]), Hi(msg[2]))
@@ -29,28 +39,37 @@ PnEncode(msg, order) ==
        ELSE <<x, y, CC(c, 38, Lo(msg[3])), CC(c, 6, Hi(msg[3]))>>
 
 \* the encoding as a plain sequence (empty slots dropped)
+\* @type: (Seq(Int), Str) => Seq(Seq(Int));
 PnEncodeSeq(msg, order) ==
     LET e == PnEncode(msg, order) IN IF e[4] = NoMsg THEN <<e[1], e[2], e[3]>> ELSE e
 
 (******************************* the machine *******************************)
+\* @type: $pnSt;
 PnInit == [nm |-> None, nl |-> None, reg |-> FALSE, vl |-> None]
 
+\* @type: ($pnSt, Int, Bool) => $pnRes;
 PnProcessNumberLsb(st, b, reg) == [st |-> [st EXCEPT !.vl = None, !.nl = b, !.reg = reg], out |-> <<>>]
+\* @type: ($pnSt, Int, Bool) => $pnRes;
 PnProcessNumberMsb(st, b, reg) == [st |-> [st EXCEPT !.vl = None, !.nm = b, !.reg = reg], out |-> <<>>]
+\* @type: ($pnSt, Int) => $pnRes;
 PnProcessValueLsb(st, b)       == [st |-> [st EXCEPT !.vl = b], out |-> <<>>]
 
+\* @type: ($pnSt) => Int;
 PnBuildNumber(st) == IF st.nl = None \/ st.nm = None THEN None ELSE Join(st.nm, st.nl)
 
+\* @type: ($pnSt, Int, Int) => $pnRes;
 PnProcessValueMsb(st, c, b) ==
     IF PnBuildNumber(st) = None THEN [st |-> st, out |-> <<>>]
     ELSE IF st.vl # None
          THEN [st |-> st, out |-> << Pn14(c, PnBuildNumber(st), Join(b, st.vl), st.reg) >>]
          ELSE [st |-> st, out |-> << Pn7(c, PnBuildNumber(st), b, st.reg, DtEntry) >>]
 
+\* @type: ($pnSt, Int, Int, Int) => $pnRes;
 PnProcessValueIncDec(st, c, dt, b) ==
     IF PnBuildNumber(st) = None THEN [st |-> st, out |-> <<>>]
     ELSE [st |-> st, out |-> << Pn7(c, PnBuildNumber(st), b, st.reg, dt) >>]
 
+\* @type: ($pnSt, Seq(Int)) => $pnRes;
 PnFeed(st, m) ==
     IF ~IsCC(m) THEN [st |-> st, out |-> <<>>]
     ELSE LET n == CcNum(m)  v == CcVal(m)  c == MsgChannel(m) IN
@@ -64,6 +83,7 @@ PnFeed(st, m) ==
            [] n = 97  -> PnProcessValueIncDec(st, c, DtDec, v)
            [] OTHER   -> [st |-> st, out |-> <<>>]
 
+\* @type: ($pnSt) => $pnSt;
 PnReset(st) == PnInit
 
 (***************** C11 monitor, ghost form (property text) *****************)
@@ -71,7 +91,9 @@ PnReset(st) == PnInit
 (* kind   : the most recent number byte was 100/101 (registered)           *)
 (* v38    : the most recent controller-38 value received AFTER the most    *)
 (*          recent number byte, None if there is none                      *)
+\* @type: $pnGhost;
 PnGhostInit == [nm |-> None, nl |-> None, kind |-> FALSE, v38 |-> None]
+\* @type: ($pnGhost, Seq(Int)) => $pnGhost;
 PnGhostFeed(g, m) ==
     IF ~IsCC(m) THEN g
     ELSE LET n == CcNum(m) v == CcVal(m) IN
@@ -79,8 +101,10 @@ PnGhostFeed(g, m) ==
            [] n \in {98, 100} -> [nm |-> g.nm, nl |-> v, kind |-> (n = 100), v38 |-> None]
            [] n = 38          -> [g EXCEPT !.v38 = v]
            [] OTHER           -> g
+\* @type: ($pnGhost) => $pnGhost;
 PnGhostReset(g) == PnGhostInit
 
+\* @type: ($pnGhost, Seq(Int)) => Seq(Seq(Int));
 PnExpected(g, m) ==
     IF ~IsCC(m) \/ CcNum(m) \notin {6, 96, 97} \/ g.nm = None \/ g.nl = None THEN <<>>
     ELSE LET c == MsgChannel(m)  num == 128 * g.nm + g.nl  v == CcVal(m) IN
@@ -89,21 +113,7 @@ PnExpected(g, m) ==
            [] OTHER -> IF g.v38 # None THEN << Pn14(c, num, 128 * v + g.v38, g.kind) >>
                                        ELSE << Pn7(c, num, v, g.kind, DtEntry) >>
 
+\* @type: (Seq(Int)) => Bool;
 PnNonContributing(m) == ~IsCC(m) \/ CcNum(m) \notin PnControllers
 
-(* C10: running a sequence of messages through the machine *)
-RECURSIVE PnRun(_, _)
-PnRun(st, ms) ==      \* sequence of outs, one per message
-    IF ms = <<>> THEN <<>>
-    ELSE LET r == PnFeed(st, Head(ms)) IN <<r.out>> \o PnRun(r.st, Tail(ms))
-
-RECURSIVE PnRunState(_, _)
-PnRunState(st, ms) == IF ms = <<>> THEN st ELSE PnRunState(PnFeed(st, Head(ms)).st, Tail(ms))
-
-\* documented forms the non-polling scanner inverts: 7-bit / inc / dec, and 14-bit LSB first
-PnRoundTripOK(st, msg) ==
-    LET e    == PnEncodeSeq(msg, "lsb")
-        outs == PnRun(st, e)
-    IN /\ \A i \in 1..(Len(e) - 1) : outs[i] = <<>>
-       /\ outs[Len(e)] = <<msg>>
 ===============================================================================
